@@ -6,6 +6,7 @@ import (
 	"flag"
 	"fmt"
 	"os"
+	"runtime/debug"
 	"runtime/pprof"
 	"syscall"
 
@@ -24,6 +25,7 @@ func main() {
 	replay := flag.String("replay", "", "replay one saved case")
 	cpuprof := flag.String("cpuprofile", "", "write a CPU profile")
 	flag.Parse()
+	debug.SetGCPercent(400)
 
 	// The library logs to stdout through a global logger; keep our stdout clean by
 	// pointing fd 1 at /dev/null for the library and writing our lines to the saved fd.
